@@ -113,5 +113,9 @@ Emit == PrintT("@@SHAPE " \o ToJson([n |-> n, i |-> i, ranges |-> ProofRanges(0,
 EraSizes == {0, 1, 63, 64, 65, 127, 128, 129, 191, 192, 200, 320, 448}
 EraCases == {[era |-> e, size |-> s, idx |-> x, hashed |-> HashedBytes(e, s, x), honest |-> HonestAccepted(e, s, x)] :
                 <<e, s, x>> \in {y \in {0, 1, 2} \X EraSizes \X (0..7) : y[3] < NumLeaves(y[2]) \/ (y[2] = 0 /\ y[3] = 0)}}
-EmitEras == (n = 1 /\ i = 0) => PrintT("@@ERAS " \o ToJson(EraCases))
+\* which leaf rule governs a proof presented in the block at height child (the child block's height decides)
+EraOf(child, taxH, proofH) == IF child < taxH THEN 0 ELSE IF child < proofH THEN 1 ELSE 2
+ForkHeights == {0, 1, 2, 3, 4, 1000}
+EraTable == {[child |-> c, taxH |-> t, proofH |-> p, era |-> EraOf(c, t, p)] : <<c, t, p>> \in {y \in (1..4) \X ForkHeights \X ForkHeights : y[2] <= y[3]}}
+EmitEras == (n = 1 /\ i = 0) => (PrintT("@@ERAS " \o ToJson(EraCases)) /\ PrintT("@@ERAOF " \o ToJson(EraTable)))
 =============================================================================
